@@ -129,12 +129,13 @@ func TestModulePermutation(t *testing.T) {
 		}
 		for i, c := range m.Comdats {
 			if i%3 != 2 {
-				c.Name = fmt.Sprintf("sec%0*d", 1+i%2, 2+(i*9)%31)
+				c.Name = fmt.Sprintf("%s%0*d", []string{"sec", "Sec", "SEC", "Zed"}[i%4], 1+i%2, 2+(i*9)%31)
 			}
 		}
 		for i, nm := range m.NamedMDs {
 			if i%3 != 2 && !strings.HasPrefix(nm.Name, "llvm.") {
-				nm.Name = fmt.Sprintf("nm.%0*d.x", 1+i%2, 2+(i*9)%31)
+				// mixed case: the order is bytewise outside digit runs (upper case before lower case), names that differ only in case are distinct
+				nm.Name = fmt.Sprintf("%s.%0*d.x", []string{"nm", "Nm", "NM", "Zeta", "cfg", "CFG"}[i%6], 1+i%2, 2+(i*9)%7)
 			}
 		}
 		x := m.Text()
